@@ -85,7 +85,7 @@ Fixpoint wrap_all (n : nat) (idx : list Z) : option (list nat) :=
    - two or more indices of which one is < -n : NOT MODELLED.  NumPy's multi-index path adds n once, leaves the index
      negative and lets it wrap a second time silently (e.g. n = 3, [-4, 0] inserts at the END and the returned map
      contains -1) or fails later with ValueError (shape mismatch).  This is outside the property's domain (positions
-     0..num_v); the models mark it with OtherError, histories exclude it (op_in_range) and the correspondence does not
+     0..num_v); the models mark it with OtherError (used for nothing else in these models: a missing receiver is ObMissing), histories exclude it (op_in_range) and the correspondence does not
      compare it. *)
 Inductive wrapped := WOk (w : list nat) | WIndexError | WUnmodelled.
 Definition below_range (n : nat) (idx : list Z) : bool :=
@@ -124,9 +124,10 @@ Inductive obs (F : Type) :=
 | ObPoint (p : vec3 F)
 | ObBox (b : option (vec3 F * vec3 F))
 | ObLen (len numv nume : nat)
-| ObRaise (e : exn).
+| ObRaise (e : exn)
+| ObMissing.   (* the receiver position does not exist in the pool (never generated; never agrees with anything) *)
 Arguments ObPoly {F}. Arguments ObPolys {F}. Arguments ObRolled {F}. Arguments ObInsert {F}. Arguments ObIndex {F}.
-Arguments ObPoint {F}. Arguments ObBox {F}. Arguments ObLen {F}. Arguments ObRaise {F}.
+Arguments ObPoint {F}. Arguments ObBox {F}. Arguments ObLen {F}. Arguments ObRaise {F}. Arguments ObMissing {F}.
 
 Record impl (F : Type) := MkImpl {
   i_edges : nat -> bool -> edges;
@@ -162,7 +163,7 @@ Section History.
   (* one call on the receiver pl[a]; new polylines are appended to the pool, an error appends nothing *)
   Definition on {B} (pl : pool) (a : nat) (f : polyline F -> pool * B) (dflt : B) : pool * B :=
     match nth_error pl a with Some p => f p | None => (pl, dflt) end.
-  Definition bad : obs F := ObRaise OtherError.
+  Definition bad : obs F := ObMissing.
 
   Definition step (pl : pool) (o : op F) : pool * obs F :=
     match o with
